@@ -128,6 +128,7 @@ func runC06(c *Ctx) {
 	p := c.P
 	c.Rule("C06-R1", "Diagnostic columns and Pos come from the same node", 60)
 	c.Rule("C06-R2", "PromQL offsets converted Start+1 / End (+1 only for inclusive-end producers)", 30)
+	defer c06ParsersKeepNoState(c, "C06-R2")
 	c.Rule("C06-R3", "whole-value spans end at len(value)", 35)
 	c.Rule("C06-R4", "displacement and source lines threaded to the position sinks", 30)
 	c.Rule("C06-R5", "column unit agrees between position writer and renderer", 3)
@@ -1461,4 +1462,96 @@ func c06ContinuationIndent(c *Ctx, R string) {
 		})
 	}
 	c.Check(n >= 6, R, "position constructors with a minimum column enumerated", token.NoPos, itoa(n), "fewer than 6 calls")
+}
+
+// c06ParsersKeepNoState: a parsed tree carries offsets into the text it was parsed from; every consumer
+// slices and measures THAT text with them. The parsing packages therefore keep nothing between calls: no
+// package-level variable of internal/parser or internal/parser/utils is written, filled or handed out by
+// address from a function (a memo of parsed queries keyed by anything but the exact text gives one rule the
+// offsets of another rule's text: carets in the wrong place, or a slice out of range).
+func c06ParsersKeepNoState(c *Ctx, R string) {
+	n, bad := 0, ""
+	for _, rel := range []string{"internal/parser", "internal/parser/utils"} {
+		pkg := c.P.Pkg(rel)
+		if pkg == nil {
+			c.Undecided(R, "anchor:"+rel, token.NoPos, "package not found")
+			continue
+		}
+		info := pkg.TypesInfo
+		isPkgVar := func(e ast.Expr) *types.Var {
+			root, _, ok := accessPath(info, e)
+			if !ok || root == nil {
+				if o := objOf(info, e); o != nil {
+					root = o
+				}
+			}
+			v, isVar := root.(*types.Var)
+			if !isVar || v.IsField() || v.Pkg() == nil || v.Parent() != v.Pkg().Scope() || v.Pkg() != pkg.Types {
+				return nil
+			}
+			return v
+		}
+		for _, f := range pkg.Syntax {
+			if c.P.IsTestFile(f.Pos()) {
+				continue
+			}
+			for _, d := range f.Decls {
+				fd, ok := d.(*ast.FuncDecl)
+				if !ok || fd.Body == nil || (fd.Recv == nil && fd.Name.Name == "init") {
+					continue
+				}
+				n++
+				ast.Inspect(fd.Body, func(nd ast.Node) bool {
+					switch x := nd.(type) {
+					case *ast.AssignStmt:
+						for _, l := range x.Lhs {
+							if v := isPkgVar(l); v != nil {
+								bad = v.Name() + " is written at " + c.P.Pos(l.Pos())
+							}
+						}
+					case *ast.IncDecStmt:
+						if v := isPkgVar(x.X); v != nil {
+							bad = v.Name() + " is written at " + c.P.Pos(x.Pos())
+						}
+					case *ast.UnaryExpr:
+						if x.Op == token.AND {
+							if v := isPkgVar(x.X); v != nil {
+								bad = "the address of " + v.Name() + " is taken at " + c.P.Pos(x.Pos())
+							}
+						}
+					case *ast.CallExpr:
+						// a method with a pointer receiver called on a package-level variable (sync.Map.Store, …)
+						if sel, ok := x.Fun.(*ast.SelectorExpr); ok {
+							if v := isPkgVar(sel.X); v != nil {
+								if fn, isFn := info.Uses[sel.Sel].(*types.Func); isFn {
+									if sig, _ := fn.Type().(*types.Signature); sig != nil && sig.Recv() != nil {
+										if _, isPtr := sig.Recv().Type().(*types.Pointer); isPtr {
+											if _, varIsPtr := v.Type().Underlying().(*types.Pointer); !varIsPtr || true {
+												switch fn.Name() {
+												case "Load", "Range", "Len", "String", "MatchString", "FindStringSubmatch", "FindAllStringSubmatch", "FindStringIndex", "FindAllStringIndex", "Match", "NumSubexp", "SubexpNames", "ReplaceAllString", "FindString":
+												default:
+													bad = v.Name() + "." + fn.Name() + " is called at " + c.P.Pos(x.Pos())
+												}
+											}
+										}
+									}
+								}
+							}
+						}
+						// append / delete / clear / copy on a package-level variable
+						if id, ok := x.Fun.(*ast.Ident); ok && len(x.Args) > 0 {
+							if _, isB := info.Uses[id].(*types.Builtin); isB && (id.Name == "delete" || id.Name == "clear" || id.Name == "copy") {
+								if v := isPkgVar(x.Args[0]); v != nil {
+									bad = v.Name() + " is changed by " + id.Name + " at " + c.P.Pos(x.Pos())
+								}
+							}
+						}
+					}
+					return true
+				})
+			}
+		}
+	}
+	c.Check(bad == "" && n >= 40, R, "parsing packages keep no state between calls", token.NoPos, itoa(n)+" functions, no package-level variable written",
+		"package-level state in the parsing packages: "+bad+" — a tree (or position) produced for one text can be handed to a rule with another text, whose offsets then point at the wrong characters or beyond the end")
 }
